@@ -97,7 +97,13 @@ class Dataset:
         self.a1 = -rng.uniform(0.4, 2.2, size=(nq, npm))               # gamma at Vref = -a1
         fam = s["family"]
         self.a2 = rng.uniform(-0.8, 0.8, size=(nq, npm)) if fam in ("poly2", "poly3") else np.zeros((nq, npm))
-        self.a3 = rng.uniform(-1.0, 1.0, size=(nq, npm)) if fam == "poly3" else np.zeros((nq, npm))
+        self.a3 = rng.uniform(-1.0, 1.0, size=(nq, npm)) if fam in ("poly3", "generic") else np.zeros((nq, npm))
+        if fam == "generic":
+            self.a2 = rng.uniform(-0.8, 0.8, size=(nq, npm))
+        # 'generic': a smooth bump on top, so that no interpolant is exact (C05 then uses the observed interpolation)
+        self.bump = rng.uniform(0.01, 0.04, size=(nq, npm)) if fam == "generic" else np.zeros((nq, npm))
+        self.bump_k = rng.uniform(4.0, 9.0, size=(nq, npm))
+        self.bump_p = rng.uniform(0.0, 6.28, size=(nq, npm))
         # --- weights
         if s["weights_int"]:
             self.weights = rng.integers(1, 12, size=nq).astype(float)
@@ -127,7 +133,7 @@ class Dataset:
     # ---- analytic spectrum -------------------------------------------------------------------------
     def lnnu(self, V):
         x = np.log(np.asarray(V, dtype=float) / self.vref)[..., None, None]
-        return self.a0 + self.a1 * x + self.a2 * x ** 2 + self.a3 * x ** 3
+        return self.a0 + self.a1 * x + self.a2 * x ** 2 + self.a3 * x ** 3 + self.bump * np.sin(self.bump_k * x + self.bump_p)
 
     def nu(self, V):
         out = np.exp(self.lnnu(V))
@@ -136,13 +142,13 @@ class Dataset:
 
     def gamma(self, V):
         x = np.log(np.asarray(V, dtype=float) / self.vref)[..., None, None]
-        out = -(self.a1 + 2 * self.a2 * x + 3 * self.a3 * x ** 2)
+        out = -(self.a1 + 2 * self.a2 * x + 3 * self.a3 * x ** 2 + self.bump * self.bump_k * np.cos(self.bump_k * x + self.bump_p))
         out[..., 0, :3] = 0.0
         return out
 
     def dgamma(self, V):
         x = np.log(np.asarray(V, dtype=float) / self.vref)[..., None, None]
-        out = -(2 * self.a2 + 6 * self.a3 * x) + 0 * x
+        out = -(2 * self.a2 + 6 * self.a3 * x - self.bump * self.bump_k ** 2 * np.sin(self.bump_k * x + self.bump_p)) + 0 * x
         out = np.broadcast_to(out, self.lnnu(V).shape).copy()
         out[..., 0, :3] = 0.0
         return out
